@@ -476,7 +476,7 @@ class CallsDriver:
             op = self.gen_concurrent(rng, names)
             if op:
                 return op
-        if r < 0.8:
+        if r < 0.72:
             return gen_rate_op(rng, ctx, self.league, names, p["opt_rate"], shape=tuple(p.get("shape", (4, 3))), maker=p["maker"], rule=p["rule"], rosters=self.fixed_rosters(rng, names))
         if r < 0.95:
             return gen_predict_op(rng, names, self.league, shape=tuple(p.get("shape", (4, 3))), rosters=self.fixed_rosters(rng, names))
@@ -1251,6 +1251,7 @@ class RejectDriver:
                 if st != "ok":
                     ctx.violation("C13/rejected_wellformed:predict_%s" % kind, {"teams": names, "exception": type(val).__name__, "message": str(val)[:200]})
             self.repeated_objects(names)
+            self.ambiguous_elements(names)
             if not self.big_done:
                 self.big_done = True
                 self.big_game()
@@ -1270,6 +1271,42 @@ class RejectDriver:
             ctx.count("big_game_300_teams")
             if st != "ok" and isinstance(val, (TypeError, ValueError)):
                 ctx.violation("C13/rejected_wellformed:300_teams_%s" % label, {"exception": type(val).__name__, "message": str(val)[:200]})
+
+    def ambiguous_elements(self, names):
+        """Rank/score elements whose status the property leaves open (complex, Decimal,
+        Fraction, NaN, inf): 'numbers' or not?  Whatever the library decides, one of the two
+        readings must be honoured: the call is accepted, or it is refused with
+        TypeError/ValueError and nothing has been modified."""
+        import decimal
+        import fractions
+
+        ctx = self.ctx
+        league = self.league
+        n = len(names)
+        kinds = [("complex", 2j), ("decimal", decimal.Decimal("2.5")), ("fraction", fractions.Fraction(5, 2)),
+                 ("nan", float("nan")), ("inf", float("inf")), ("neg_inf", float("-inf")), ("decimal_nan", decimal.Decimal("NaN"))]
+        for label, bad in kinds:
+            for sel in ("ranks", "scores"):
+                for pos in sorted({0, n - 1, n // 2}):
+                    teams = [[mk_rating(league.model, p.mu, p.sigma, p.name) for p in t] for t in league.teams_of(names)]
+                    vals = [k + 1 for k in range(n)]
+                    vals[pos] = bad
+                    objs = reachable_ratings(teams)
+                    pre_r = rating_digest(objs)
+                    pre_m = model_state(league.model)
+                    st, val = call_outcome(lambda: league.model.rate(teams, **{sel: vals}))
+                    ctx.evaluations += 1
+                    ctx.count("ambiguous_element_probe")
+                    if st == "ok":
+                        continue
+                    tag = "rate:%s:elem:%s" % (sel, label)
+                    if not isinstance(val, (TypeError, ValueError)):
+                        ctx.violation("C13/wrong_exception:%s:%s" % (tag, type(val).__name__), {"teams": names, "pos": pos, "message": str(val)[:200]})
+                    if pre_r != rating_digest(objs):
+                        ctx.violation("C13/side_effect:%s:rating" % tag, {"teams": names, "pos": pos, "exception": type(val).__name__})
+                    d = diff_state(pre_m, model_state(league.model))
+                    if d:
+                        ctx.violation("C13/side_effect:%s:model.%s" % (tag, ",".join(d)), {"teams": names, "pos": pos})
 
     def repeated_objects(self, names):
         """Games in which the SAME rating object (or the same team list) appears twice.  The
@@ -1470,7 +1507,11 @@ class StoreDriver:
         m2 = getattr(L, "_model2", None)
         if m2 is None or getattr(L, "_model2_lib", None) is not L.lib:
             tau = dec(self.ctx.cfg["kwargs"]["tau"]) * 2.0 + 0.02 * dec(self.ctx.cfg["kwargs"]["beta"])
-            m2 = build_model(self.ctx.cfg, tau=tau, limit_sigma=not self.ctx.cfg["kwargs"]["limit_sigma"], lib=L.lib)
+            cfg2 = json.loads(json.dumps(self.ctx.cfg))
+            # another ladder: other default mu and sigma too (1500 / 500 style)
+            cfg2["kwargs"]["mu"] = enc(dec(self.ctx.cfg["kwargs"]["mu"]) * 1.5 + 3.0 * dec(self.ctx.cfg["kwargs"]["beta"]))
+            cfg2["kwargs"]["sigma"] = enc(dec(self.ctx.cfg["kwargs"]["sigma"]) * 0.7)
+            m2 = build_model(cfg2, tau=tau, limit_sigma=not self.ctx.cfg["kwargs"]["limit_sigma"], lib=L.lib)
             L._model2 = m2
             L._model2_lib = L.lib
         return m2
